@@ -44,7 +44,8 @@ def gene_name(g):
         return f'ENSMUSG{g["id"]:011d}.7'
     if g['cls'] == 'sym':
         return SYM[g['id']]
-    return f'mystery-{g["id"]}'
+    # unknown names: every other one holds a slash (composite names such as "Gm100/Gm200" occur in real gene tables)
+    return f'mystery-{g["id"]}' if g['id'] % 2 == 0 else f'mystery/{g["id"]}-x'
 
 
 # known gene symbols; some contain a dot (like Tex19.1) and must not be taken for versioned identifiers
@@ -202,7 +203,10 @@ def _case(args):
         uns = dict(b.uns)
         renamed = {gene_name(g): gn for g, gn in zip(s['genes'], got) if gene_name(g) != gn}
         if any(g['cls'] != 'ens' for g in s['genes']):
-            if dict(uns.get('AIBS_CDM_gene_mapping', {})) != renamed:
+            # the package writes a '/' inside a key of uns as '$' (utils.clean_for_uns_serialization; anndata would read
+            # the slash as a group boundary): the record is read with the inverse rule
+            rec_map = {str(k).replace('$', '/'): v for k, v in dict(uns.get('AIBS_CDM_gene_mapping', {})).items()}
+            if rec_map != renamed:
                 bad.append(('validate:mapping-record', f'recorded {uns.get("AIBS_CDM_gene_mapping")} expected {renamed}'))
         if int(uns.get('AIBS_CDM_n_mapped_genes', -1)) != s['nmapped']:
             bad.append(('validate:mapped-count', f'recorded {uns.get("AIBS_CDM_n_mapped_genes")} expected {s["nmapped"]}'))
